@@ -85,7 +85,9 @@ pub fn gen(tier: &str, r: &mut Rng) -> Vec<String> {
         "data_x stop_", "data_x global_", "data_x _a loop_", "data_x _a _b", "data_x _a ;x", "data_x\n_a\n;\n;\n", "data_x _a $x", "data_x _a [1]", "data_x _a\u{c}1", "data_x\u{c}_a 1", "\u{feff}data_x _a 1",
         "data_x _cell.length_a ?", "data_x _cell.length_a .", "data_x _cell.length_a abc", "data_x _cell.angle_alpha 400", "data_x _cell.angle_beta -1", "data_x _cell.length_a 1e400", "data_x _cell.length_a 0e400",
         "data_x _symmetry.Int_Tables_number 0", "data_x _symmetry.Int_Tables_number 231", "data_x _symmetry.Int_Tables_number -1", "data_x _symmetry.Int_Tables_number 1.5", "data_x _symmetry.Int_Tables_number ?",
-        "data_x _symmetry.space_group_name_H-M ?", "data_x _symmetry.space_group_name_H-M 'no such group'", "data_x _symmetry.space_group_name_H-M 'P 1' _symmetry.Int_Tables_number 2", "data_x _space_group.IT_number 19 _space_group.name_Hall ?",
+        "data_x _symmetry.space_group_name_H-M ?", "data_x _symmetry.space_group_name_H-M 'no such group'", "data_x _symmetry.space_group_name_H-M 'P 1' _symmetry.Int_Tables_number 2", "data_x _symmetry.Int_Tables_number 2 _symmetry.space_group_name_H-M 'P 1'", "data_x _symmetry.Int_Tables_number 1 _symmetry.space_group_name_H-M 'P 1'",
+        "data_x _symmetry.space_group_name_H-M 'P 1' _space_group.name_H-M_alt 'P 1'", "data_x _symmetry.space_group_name_H-M 'P 1' _space_group.name_H-M_alt 'P -1'", "data_x _space_group.name_Hall 'P 1' _symmetry.space_group_name_Hall '-P 1'", "data_x _space_group.name_Hall 'P 1' _symmetry.space_group_name_H-M ?",
+        "data_x _space_group.IT_number 19 _symmetry.Int_Tables_number 19", "data_x _space_group.IT_number 19 _symmetry.Int_Tables_number 18", "data_x _space_group.IT_number 19 _space_group.name_Hall ?",
         "data_x _atom_sites.Cartn_transf_matrix[5][1] 1", "data_x _atom_sites.Cartn_transf_matrix[0][1] 1", "data_x _atom_sites.Cartn_transf_matrix[1][4] 1", "data_x _atom_sites.Cartn_transf_vector[4] 1", "data_x _atom_sites.Cartn_transf 1",
         "data_x _atom_sites.Cartn_transf_matrix[1][1] x", "data_x _atom_sites.Cartn_transf_matrix[a][b] 1", "data_x _database_PDB_matrix.origx 1", "data_x _database_PDB_matrix.origx[1] ?", "data_x _atom_sites.Cartn_transf[ 1",
         "data_x _struct_ncs_oper.matrix[1][1] 1", "data_x _struct_ncs_oper.id ?", "data_x _struct_ncs_oper.id x", "data_x _struct_ncs_oper.id 1 _struct_ncs_oper.code maybe", "data_x _struct_ncs_oper.id 1 _struct_ncs_oper.code ?",
